@@ -87,6 +87,17 @@ func (x Expr) modify(data any, modifier func(element any) (altered any, changed 
 		panic(fmt.Sprintf("can not modify with an expression where the last fragment is a %s",
 			ta[len(ta)-1]))
 	}
+	if len(x) == 1 {
+		switch x[0].(type) {
+		case Root, At, Bracket:
+			// The whole of the data is the target. Handled here since
+			// a scalar can not be followed on the stack.
+			if nv, changed := modifier(data); changed {
+				return nv
+			}
+			return data
+		}
+	}
 	wx := make(Expr, len(x)+1)
 	copy(wx[1:], x)
 	wx[0] = Nth(0)
